@@ -1,12 +1,17 @@
 (* C05 — synchronous submission returns after completion; dispatch orders memory.
-   PARTIAL.  Visibility half: proved (by computation on what the translator reads from the source on every run)
-   is that every hand-off edge the property lists carries the memory order it needs — acquire on every lock
-   acquisition of dq_state, release on every unlock / hand-off, release on the MPSC tail exchange with acquire
-   (dependency) loads of head/next, release/acquire on the thread event, on group leave/wait, on semaphore
-   signal/wait and on the once gate.  Weakening any of them in the source breaks this theorem although no test on
-   x86 can observe it.  NOT proved: a release/acquire view model of the protocols (DESIGN.md §3.4), and the
-   temporal half for all interleavings; the temporal half and payload visibility are decided on the
-   implementation by the stress oracle (return stamp vs item end stamp, check-summed plain payloads). *)
+   PARTIAL.  What this file proves is a PLACEMENT statement, by computation on what the translator reads from the source
+   on every run: it pins the memory order the source currently has at the listed hand-off sites, so that weakening any of
+   them in the source breaks this theorem although no test on x86 can observe it.  It does NOT prove that these orders are
+   adequate (no C11 / release-acquire view model is formalised), and the list is not "acquire on every lock acquisition":
+   as the conjuncts themselves say, the lock acquisitions inside `push_waiter_loop` and `resume_loop` are release-only RMWs
+   (the hand-off to the woken thread supplies the acquire side), two further lock hand-overs (`non_barrier_complete_loop`,
+   queue.c:972, and `drain_non_barriers_loop`, queue.c:1471) are relaxed in the source and are not pinned here, the once
+   gate's consumer load is relaxed in the source (lock.c; the inline fast path relies on a dependency / compiler barrier),
+   the thread-event slow path's acquire load (`_dispatch_thread_event_wait_slow`) and the consumer side of the group-notify
+   edge are pinned in Properties_C05_sync.v (when registered in lib/props/c05.py) and not here.
+   NOT proved here: the temporal half for all interleavings (see Properties_C05_sync.v); the temporal half and payload
+   visibility are also decided on the implementation by the stress oracle (return stamp vs item end stamp, check-summed
+   plain payloads). *)
 From Coq Require Import ZArith Bool List.
 From Verif Require Import Word Gen_consts Gen_fields Gen_dqstate Gen_lanesites Gen_once Suspend_proofs Lane_iface.
 Import ListNotations.
